@@ -11,6 +11,7 @@ import (
 	"strconv"
 	"strings"
 	"sync"
+	"time"
 
 	"github.com/enbility/ship-go/api"
 	"github.com/enbility/ship-go/hub"
@@ -196,6 +197,27 @@ func (p *liveProc) ReportConnectionError(err error) {
 }
 
 func installLive() {
+	hub.VerifPoint = func(h *hub.Hub, name string) {
+		x, ok := hubNodes.Load(h)
+		if !ok || name != "cancel-pairing-after-lookup" {
+			return
+		}
+		n := x.(*hubRef).n
+		for i := 0; i < 150; i++ {
+			n.mu.Lock()
+			on, grown := n.gateOn, n.nconn > n.gateBase
+			n.mu.Unlock()
+			if !on {
+				return
+			}
+			if grown {
+				n.l.add(n.name, "Gate", "a-dial-became-a-connection")
+				return
+			}
+			time.Sleep(2 * time.Millisecond)
+		}
+		n.l.add(n.name, "Gate", "nothing-happened")
+	}
 	ship.VerifWrap = func(p api.ShipConnectionInfoProviderInterface, w api.WebsocketDataWriterInterface, role string, _ string) (api.ShipConnectionInfoProviderInterface, api.WebsocketDataWriterInterface) {
 		h, ok := p.(*hub.Hub)
 		if !ok {
